@@ -1,5 +1,5 @@
 """C13 — size limits and block-size choice: the borders (structural clauses only)."""
-from ..rules import generator as gen, engine, piece
+from ..rules import generator as gen, engine, piece, casts
 
 EXPL = ("Decides the *borders* named in the property from the exact branch conditions in MIR with rustc-evaluated constants: "
         "set_fixed_input_size refuses exactly size > 192 GiB (206158430208); finalisation returns InputSizeTooLarge exactly for "
@@ -33,6 +33,7 @@ def run(ctx):
         ctx.guard("C13", "init", lambda: piece.initial_state(ctx, prog))
         ctx.guard("C13", "reset", lambda: gen.reset_equals_new(ctx, prog))
         ctx.guard("C13", "reset-side", lambda: gen.reset_side_conditions(ctx, prog))
+        ctx.guard("C13", "casts", lambda: casts.census(ctx, prog, scope='internals::generate::', floor=3))
         if not c.startswith("unsafe"):
             # (the pointer engine of `unsafe` is tied to the index engine by SA-ENGINEMAP under C14)
             ctx.guard("C13", "piece", lambda: piece.piece_effects(ctx, prog))
